@@ -97,6 +97,7 @@ def attribute(entry: Any, v: Any) -> bool:
         _ATTR = findings.any_of(
             findings.by_repair(worker, lambda it: it[2], lambda it, s: (it[0], it[1], s), patches=("kind-partitions",)),
             findings.by_patch(worker),
+            findings.by_predicate(),
         )
     return _ATTR(entry, v)
 
